@@ -136,6 +136,13 @@ def directed():
                        + [["turns", turns], ["cancel_sends"], ["unstall"], ["adv", 0.5],
                           ["send", "zone_ctrl", "idem", "inline"], ["fin"], ["adv", 3.0],
                           ["send", "ac_ctrl", "idem", "inline"], ["adv", 1.0]])
+    # accepted on a healthy link and the socket closed in the very next statement: what send()
+    # has accepted while connected is on the wire when it returns
+    for n in (1, 3):
+        out.append([["q"]] + [["send", S.KINDS[i % 3], "idem", "inline"] for i in range(n)]
+                   + [["close"]])
+        out.append([["q"]] + [["send", S.KINDS[i % 3], "long", "hdr"] for i in range(n)]
+                   + [["close"], ["open"], ["adv", 3.0], ["send", "zone_ctrl", "idem", "inline"]])
     # an unencodable message between good ones, sent at once and held for the next connection
     for how in ("struct", "value"):
         out.append([["q"], ["send", "zone_ctrl", "idem", "inline"], ["send_bad", how, "inline"],
